@@ -88,7 +88,9 @@ func c16Envelope(c *core.Ctx) {
 			return true
 		})
 		opOnClone := false
-		for _, call := range core.CallsTo(info, fd.Decl.Body, func(f *types.Func) bool { return f.Name() == name && core.RecvNamed(f) != nil && core.RecvNamed(f).Obj().Name() == "Object" }) {
+		for _, call := range core.CallsTo(info, fd.Decl.Body, func(f *types.Func) bool {
+			return f.Name() == name && core.RecvNamed(f) != nil && core.RecvNamed(f).Obj().Name() == "Object"
+		}) {
 			if core.VarOf(info, core.RecvExpr(call)) == cloneVar && cloneVar != nil {
 				opOnClone = true
 			}
